@@ -53,6 +53,35 @@ def train_data(n, N):
     return data, bases
 
 
+def metric_values(state):
+    """fidelity / KL (one target to be rotated; per-basis targets with an explicit list of three bases, one of them twice) / NLL of the
+    current state against a fixed target: deterministic numbers that a seeded script prints"""
+    from qucumber.utils import training_statistics as TS, unitaries as UN
+    n = state.num_visible
+    D = 2 ** n
+    space = state.generate_hilbert_space()
+    re = torch.tensor([1.0 + 0.37 * ((3 * i) % 5) for i in range(D)], dtype=torch.double)
+    im = torch.tensor([0.21 * ((2 * i + 1) % 3) - 0.2 for i in range(D)], dtype=torch.double)
+    nrm = torch.sqrt((re ** 2 + im ** 2).sum())
+    psi_t = torch.stack([re / nrm, im / nrm])
+    allb = gen.basis_strings(n)
+    bases = ["Z" * n] + [allb[(5 * i + 1) % len(allb)] for i in range(7)] + ["X" * n]      # eight or nine entries, some basis listed twice: the mean runs over the LIST
+    if len(state.networks) == 1:
+        return [TS.fidelity(state, psi_t, space), TS.KL(state, psi_t, space), TS.NLL(state, space[:3], space)]
+    if type(state).__name__ == "DensityMatrix":
+        rr = psi_t[0][:, None] * psi_t[0][None, :] + psi_t[1][:, None] * psi_t[1][None, :]
+        ri = psi_t[1][:, None] * psi_t[0][None, :] - psi_t[0][:, None] * psi_t[1][None, :]
+        tgt = torch.stack([0.7 * rr + 0.3 * torch.eye(D, dtype=torch.double) / D, 0.7 * ri])
+        tdict = {b: UN.rotate_rho(state, b, space, rho=tgt) for b in bases}
+    else:
+        tgt = psi_t
+        tdict = {b: UN.rotate_psi(state, b, space, psi=tgt) for b in bases}
+    sb = np.array([list(bases[i % 3]) for i in range(3)]).reshape(3, n)
+    tdict = dict(tdict)
+    return [TS.fidelity(state, tgt, space), TS.KL(state, tgt, space, bases=bases), TS.KL(state, tdict, space, bases=bases), TS.KL(state, tdict, space),
+            TS.NLL(state, space[:3], space, sample_bases=sb)]
+
+
 def params_flat(state):
     return torch.cat([p.data.reshape(-1) for net in state.networks for p in getattr(state, net).parameters()]).clone()
 
@@ -65,7 +94,7 @@ def programs(draw, tier):
         return {"op": "construct", "type": t, "n": draw(st.integers(2, 3)), "nh": draw(st.integers(1, 3)), "na": draw(st.integers(1, 2))}
     ops = [cons()]
     for _ in range(draw(st.integers(1, 7))):
-        k = draw(st.sampled_from(["construct", "reinit", "sample", "sample", "statistics", "fit", "fit", "save_autoload", "sample_from_space", "make_unitaries"]))
+        k = draw(st.sampled_from(["construct", "reinit", "sample", "sample", "statistics", "fit", "fit", "save_autoload", "sample_from_space", "make_unitaries", "metrics"]))
         if k == "construct":
             ops.append(cons())
         elif k in ("sample", "sample_from_space"):
@@ -156,6 +185,8 @@ def run_program(ops, seed, tmp, form="explicit"):
             if not bool(torch.isfinite(params_flat(state)).all()):
                 raise Diverged()
             outs.append(params_flat(state))
+        elif k == "metrics":
+            outs.append(metric_values(state))
         elif k == "make_unitaries":
             # building a dictionary of unitaries (operators given as nested lists / arrays / tensors) is a pure function of its arguments: what
             # is sampled afterwards must not depend on it having happened
@@ -341,7 +372,68 @@ def check_readonly(c):
     return {"nontrivial": len(kinds) >= 4, "labels": [f"type={t}"] + sorted("op=" + k for k in kinds)}
 
 
+def digest(x):
+    import hashlib
+    if isinstance(x, torch.Tensor):
+        return hashlib.sha1(x.detach().cpu().contiguous().numpy().tobytes()).hexdigest()[:16]
+    if isinstance(x, dict):
+        return {str(k): digest(v) for k, v in sorted(x.items(), key=lambda kv: str(kv[0]))}
+    if isinstance(x, (list, tuple)):
+        return [digest(v) for v in x]
+    if isinstance(x, float):
+        return x.hex()
+    return repr(x)
+
+
+def check_hashseed(c):
+    """The same seeded program in fresh interpreters that differ only in PYTHONHASHSEED (str hashes, hence the iteration order of sets of
+    strings, differ between them): every output must be bit-identical.  The runner itself pins PYTHONHASHSEED=0, so this is the only place
+    where an iteration-order dependence of a result can show."""
+    import json, subprocess, sys
+    with tempfile.TemporaryDirectory(prefix="vf_c14h_") as tmp:
+        cf = os.path.join(tmp, "case.json")
+        json.dump(c, open(cf, "w"))
+        outs = []
+        for hs in ("1", "2", "3"):
+            r = subprocess.run([sys.executable, "-m", "vf.props.c14", cf, os.path.join(tmp, "w" + hs)], capture_output=True, text=True,
+                               env=dict(os.environ, PYTHONHASHSEED=hs))
+            if r.returncode != 0 or not r.stdout.strip():
+                raise RuntimeError(f"child interpreter failed (exit {r.returncode}): {r.stderr[-800:]}")
+            outs.append(json.loads(r.stdout.strip().splitlines()[-1]))
+        if any(o == "DIVERGED" for o in outs):
+            return {"nontrivial": False, "excluded": 1, "labels": ["diverged"]}
+        for hs, o in zip(("2", "3"), outs[1:]):
+            for i, (x, y) in enumerate(zip(outs[0], o)):
+                what = c["ops"][i]["op"] if i < len(c["ops"]) else "final parameters"
+                require(x == y, f"not-reproducible:hash-seed:{what}", f"output #{i} ({what}) of the same seeded program differs between interpreters started with PYTHONHASHSEED=1 and ={hs}",
+                        first=str(x)[:200], second=str(y)[:200])
+    kinds = {o["op"] for o in c["ops"]}
+    return {"nontrivial": "metrics" in kinds or "fit" in kinds, "labels": sorted("op=" + k for k in kinds)}
+
+
+def _child_main(argv):
+    import json
+    c = json.load(open(argv[1]))
+    os.makedirs(argv[2], exist_ok=True)
+    torch.set_num_threads(1)
+    try:
+        out = run_program(c["ops"], c["seed"], argv[2], c.get("seed_form", "explicit"))
+    except Diverged:
+        print(json.dumps("DIVERGED"))
+        return 0
+    print(json.dumps([digest(o) for o in out]))
+    return 0
+
+
 SUBCHECKS = [
     Sub("repro", check_repro, strategy=lambda tier: programs(tier), quick=240, thorough=3000, per_shard=10),
     Sub("readonly", check_readonly, strategy=lambda tier: ro_programs(tier), quick=320, thorough=4000, per_shard=10),
+    # every program of this sub-check trains once and evaluates the metrics (the operations whose results pass through dicts / sets of strings)
+    Sub("hashseed", check_hashseed, strategy=lambda tier: programs(tier).map(lambda c: dict(c, ops=c["ops"][:1] + [
+        {"op": "fit", "N": 5, "pbs": 2, "nbs": 3, "k": 1, "epochs": 1}, {"op": "metrics"}] + c["ops"][1:4] + [{"op": "metrics"}])), quick=24, thorough=160, per_shard=3),
 ]
+
+
+if __name__ == "__main__":
+    import sys
+    sys.exit(_child_main(sys.argv))
